@@ -3,6 +3,8 @@ SUB = {
     "time.Now": P + "vC35_now",
     "time.Until": P + "vC35_until",
     "time.NewTimer": P + "vC35_newTimer",
+    "time.Sleep": P + "vC35_sleep",
+    "time.After": P + "vC35_after",
     "(*time.Timer).Stop": P + "vC35_timerStop",
     "context.WithDeadline": P + "vC35_withDeadline",
     "github.com/tochemey/goakt/v4/internal/address.FormatHostPort": P + "vC35_hostPort",
@@ -16,15 +18,15 @@ CHECK = {
     "harness": ["actor/zz_verif_c35.go"],
     "entries": [
         {"fn": P + "vC35_across", "replay": "model-only", "opts": {"unwind_mode": "assume"},
-         "opts_quick": {"loop_bounds": {LOOP: 4}}, "opts_thorough": {"loop_bounds": {LOOP: 16}}},
-        {"fn": P + "vC35_across_e2e", "replay": "model-only", "opts": {"unwind_mode": "assume", "loop_bounds": {LOOP: 1}}},
+         "opts_quick": {"loop_bounds": {LOOP: 3}}, "opts_thorough": {"loop_bounds": {LOOP: 8}}, "cover_optional": ("ten-sleeps",)},
+        {"fn": P + "vC35_across_e2e", "replay": "model-only", "opts": {"unwind_mode": "assume", "loop_bounds": {LOOP: 1}}, "cover_optional": ("ten-sleeps", "delivered-after-masking")},
         {"fn": P + "vC35_bypass", "replay": "model-only"},
     ],
     "timeout_ms": {"quick": 400000, "thorough": 3000000},
     "opts": {"unwind": 20, "substitute": SUB, "fresh_solver": True},
     "stop": [k for k in SUB.keys() if k.startswith("(*" + P)],
     "explanation": "(*PID).deliverAcrossHandoff, (*PID).deliverBypassingHandoff, sleepWithinHandoff, isHandoffRetryable, (*actorSystem).isEndpointRelocating / relocationInFlight / recordRelocationHandoff and the real xsync.TTLMap (Set/Get/ActiveLen) behind relocatingEndpoints are executed symbolically. "
-                   "The clock is owned by the harness (time.Now, time.Until, time.NewTimer, (*time.Timer).Stop and context.WithDeadline are substituted): every clock reading, resolution, timer creation and delivery lets an arbitrary latency pass, which is accumulated in a slack term; a timer of duration d advances the clock by d (+latency) or the caller's context is cancelled before it fires; "
+                   "The clock is owned by the harness (time.Now, time.Until, time.NewTimer, time.Sleep, time.After, (*time.Timer).Stop and context.WithDeadline are substituted): every clock reading, resolution, timer creation and delivery lets an arbitrary latency pass, which is accumulated in a slack term; a timer of duration d advances the clock by d (+latency) or the caller's context is cancelled before it fires; "
                    "the delivery callback takes an arbitrary time but honours the deadline of the context it is given. (*actorSystem).ActorOf is substituted by a resolver whose outcome is arbitrary at every attempt (local target, remote target on the departed endpoint, remote target on a live endpoint, any of the 8 retryable errors, a terminal error); InCluster is a symbolic boolean. "
                    "The departed endpoint was recorded at an arbitrary earlier time (inside or outside its 3 s window, or never). Asserted: elapsed <= maxWait + slack for every maxWait > 0; for maxWait <= 0 masking <= 3.5 s + slack; a never-resolvable name is masked <= 500 ms + slack; at most one delivery, to the last resolved target, result passed through; "
                    "giving up yields the stalled (retryable) error / ErrRelocationInProgress; the retry loop terminates (unwinding assertion, <= 20 iterations); the bypass variant resolves exactly once, never creates a timer and adds no waiting.",
